@@ -19,7 +19,7 @@ ASSUMPTIONS = ["exponents >= 1.1 for powerlaw_sample so that the float transform
                "7-sigma normal threshold on sums of >= 300 hypergeometric draws; the default seed makes the run deterministic"]
 EXHAUSTIVE = {"quick": ["subsample: every count vector of length<=3 with entries<=3 x every n in 0..total (one seed each)"],
               "thorough": ["subsample: every count vector of length<=4 with entries<=3 x every n in 0..total x 3 seeds"]}
-REQUIRE = {"mle_exact_given_bounds": 11, "powerlaw_heavy_tail_cases": 2, "subsample_cases": 200, "subsample_n_equals_total": 10, "subsample_n_zero": 10, "subsample_too_many_raises": 10,
+REQUIRE = {"downsample_table_with_clone_count": 4, "mle_narrow_dtype_calls": 94, "subsample_many_categories": 1, "mle_exact_given_bounds": 11, "powerlaw_heavy_tail_cases": 2, "subsample_cases": 200, "subsample_n_equals_total": 10, "subsample_n_zero": 10, "subsample_too_many_raises": 10,
            "downsample_cases": 30, "downsample_identity": 10, "downsample_subsampled": 17, "downsample_table": 10, "downsample_table_duplicated_index": 5,
            "powerlaw_sample_cases": 15, "mle_closed_form_cases": 12, "mle_exact_cases": 10, "uniformity_tests": 4}
 SHARDS = {"quick": 4, "thorough": 16}
